@@ -168,7 +168,7 @@ fn conc_explore() {
       continue;
     }
     let t0 = std::time::Instant::now();
-    let e = conc::explore(c, &mode, bound, max_runs, seed, (i as u64 + 1) * 1_000_000, &mut out, &mut scheds, budget);
+    let e = conc::explore(c, &mode, bound, max_runs, seed, (i as u64 + 1) * 1_000_000, &mut out, &mut scheds, budget, arg("--log-locks").is_some());
     per_case.push(serde_json::json!({"case": c.name, "runs": e.runs, "distinct_traces": e.distinct, "exhausted_within_bound": e.exhausted, "ms": t0.elapsed().as_millis() as u64}));
   }
   out.flush().unwrap();
